@@ -21,7 +21,7 @@ import c08_gen, c08_real, c08_sym, c08_trace, progen
 
 MODEL_FILES = ['MaltModel/Analysis/QualNames.lean', 'MaltModel/Analysis/Activity.lean', 'MaltModel/Analysis/ActivityFn.lean',
                'MaltModel/Analysis/ActivityHyp.lean', 'MaltModel/Spec/Symtable.lean', 'MaltModel/Spec/Dynamic.lean',
-               'MaltModel/Proofs/C08Activity.lean', 'MaltModel/Proofs/C08Dynamic.lean', 'MaltModel/Proofs/C08Classes.lean',
+               'MaltModel/Proofs/C08Activity.lean', 'MaltModel/Proofs/C08Dynamic.lean', 'MaltModel/Proofs/C08Classes.lean', 'MaltModel/Proofs/C08Nested.lean',
                'MaltModel/Drv/C08.lean']
 CLASSES = ['walrusInComp', 'harmfulLeaks', 'classShadow', 'argAnnotations', 'nonlocalBelow', 'globalBelow']
 PRELUDE_LINES = c08_gen.PRELUDE.count('\n')
@@ -56,13 +56,13 @@ def gen_cases(run):
         s = c08_gen.chain_source(*d)
         if s is not None:
             out.append(Case(s, 'f(V())', c08_gen.chain_runnable(d), 'chain', [d[0], d[1], [list(l) for l in d[2]]]))
-    nrand = 1500 if run.tier == 'quick' else 14000
+    nrand = 1500 if run.tier == 'quick' else 10000
     for i in range(nrand):
         runnable = i % 2 == 0
         s, call = c08_gen.random_tree(run.rng, runnable=runnable, max_depth=2 + i % 2, handler_names=(i % 25 == 24))
         out.append(Case(s, 'f(%s)' % call, runnable, 'random'))
     # control-flow skeletons of the shared generator (if/while/for/try/finally/with/nested def + nonlocal), executed
-    nsk = 250 if run.tier == 'quick' else 2500
+    nsk = 250 if run.tier == 'quick' else 1500
     sk_info = {}
     for prog in progen.skeleton_programs(max_stmts=4 if run.tier == 'quick' else 5, max_depth=3, cap=nsk, rng=run.rng,
                                          rich=run.tier != 'quick', info=sk_info):
@@ -257,7 +257,7 @@ def check_cases(run, cases, workdir, label, stats):
             if fr[0] and fr[2]:
                 stats['hypotheses_of_C08_dynamic_lookup_hold'] = stats.get('hypotheses_of_C08_dynamic_lookup_hold', 0) + 1
             if all(fr) and not hyp.get('harmfulLeaks'):
-                stats['hypotheses_of_C08_classes_partial_hold'] = stats.get('hypotheses_of_C08_classes_partial_hold', 0) + 1
+                stats['hypotheses_of_C08_classes_partial_and_nested_hold'] = stats.get('hypotheses_of_C08_classes_partial_and_nested_hold', 0) + 1
         # ---- set aside exactly what the property sets aside
         if p.impl.crash == 'handlerName':
             stats['set_aside:except_name_crash'] = stats.get('set_aside:except_name_crash', 0) + 1
